@@ -3,51 +3,45 @@
  'functions': ['replace_substrings'],
  'replace': ['igris_memmem', 'memcpy'],
  'include': ['/verif/units/C19/cxxshim'],
- 'params': {'GROW': [0, 1]},
- 'clauses': 'MEMORY part of the replace_substrings contract: every memcpy and the final terminator store stay inside buffer[0..maxsize) (exact-size '
-            'object) and inside input[0..inlen), sub, rep (exact-size, non-terminated); the scan stays inside the input and terminates; the terminator is '
-            'stored at the output length (sum of the copied gaps and replacements), which is < maxsize; sublen == 0: no match, plain copy. '
-            'GROW=0: replen <= sublen, both symbolic; GROW=1: sublen == 1, replen == 2 (a growing replacement; products by constants only). '
-            'The match structure (left-to-right, non-overlapping, first occurrence) is proved by the thorough-tier units replace_substrings_matches / '
-            'replace_substrings_first, the copied CONTENT on igris::replace (same loop, units cxx_replace_*): legacy contract replacement havocs the '
-            'whole buffer at each memcpy, dfcc does not finish on this loop.',
+ 'clauses': 'MEMORY part of the replace_substrings contract (the length clause min(L, maxsize - 1) is unit replace_substrings_length), for EVERY maxsize, sublen, replen (no carve-out): every memcpy and the final '
+            'terminator store stay inside buffer[0..maxsize) (exact-size object; maxsize == 0: nothing is written) and inside input[0..inlen), sub, rep '
+            '(exact-size, non-terminated); the scan stays inside the input and terminates; the result is truncated, never overflowed: the terminator '
+            'is stored at min(L, maxsize - 1), where L is the length of the full substitution result (sum over the matches of gap + replen, plus the '
+            'tail; counted in 128 bits); sublen == 0: no match, plain copy. '
+            'The match structure (left-to-right, non-overlapping, first occurrence) is proved by the units replace_substrings_matches / '
+            'replace_substrings_first, the copied CONTENT on igris::replace (same loop, units cxx_replace_*) and, for small sizes, natively by the '
+            'reference comparison of the replay / bounded fallback run of this unit: legacy contract replacement havocs the whole buffer at each '
+            'memcpy, dfcc does not finish on this loop.',
  'kf': ['C19_replace_substrings_maxsize'],
  'inject': [
    {'file': 'igris/string/replace_substrings.c', 'func': 'replace_substrings', 'at': 'func-begin', 'ghost': 'g_in0 = input; g_buf0 = buffer;'},
    {'file': 'igris/string/replace_substrings.c', 'func': 'replace_substrings', 'at': 'body-begin', 'loop': 0,
-    'ghost': 'if (g_nm == g_m) { g_prev = (size_t)(strit - g_in0); g_pm = (size_t)((const char *)finded - g_in0); if (g_prev <= g_w && g_w < g_pm) g_wd = g_mm_d; } if (g_nm == g_m + 1) g_prev1 = (size_t)(strit - g_in0); g_nm++;'},
-   {'file': 'igris/string/replace_substrings.c', 'func': 'replace_substrings', 'at': 'before', 'anchor': 'ptrdiff_t lastlen = streit - strit;',
-    'ghost': 'g_last = (size_t)(strit - g_in0); if (g_last <= g_w) g_wd_last = g_mm_d; g_outlen = (size_t)(bufit - g_buf0) + (size_t)(streit - strit);'},
-   {'file': 'igris/string/replace_substrings.c', 'func': 'replace_substrings', 'loop': 0, 'expect': 'while ((finded = igris_memmem(',
-    'assigns': 'strit, bufit, finded, g_nm, g_prev, g_pm, g_wd, g_prev1, g_mm_d, __CPROVER_object_whole(buffer)',
+    'ghost': 'g_nm++;'},
+   {'file': 'igris/string/replace_substrings.c', 'func': 'replace_substrings', 'at': 'before', 'anchor': 'memcpy(bufit, strit, lastlen',
+    'ghost': 'g_last = (size_t)(strit - g_in0); g_outlen = (size_t)(bufit - g_buf0) + lastlen; g_done = 1;'},
+   {'file': 'igris/string/replace_substrings.c', 'func': 'replace_substrings', 'loop': 0, 'expect': 'while (',
+    'assigns': 'strit, bufit, finded, g_nm, g_mm_d, __CPROVER_object_whole(buffer)',
     'invariants': [
       '__CPROVER_same_object(strit, g_in0) && __CPROVER_POINTER_OFFSET(g_in0) == 0 && (size_t)__CPROVER_POINTER_OFFSET(strit) <= inlen && streit == g_in0 + inlen && input == g_in0',
-      '__CPROVER_same_object(bufit, g_buf0) && __CPROVER_POINTER_OFFSET(g_buf0) == 0 && buffer == g_buf0',
-      'C19_FIT((size_t)__CPROVER_POINTER_OFFSET(bufit), (size_t)__CPROVER_POINTER_OFFSET(strit))',
+      'maxsize >= 1 && __CPROVER_same_object(bufit, g_buf0) && __CPROVER_POINTER_OFFSET(g_buf0) == 0 && buffer == g_buf0 && bufend == g_buf0 + (maxsize - 1)',
+      '(size_t)__CPROVER_POINTER_OFFSET(bufit) <= maxsize - 1',
       'g_nm <= (size_t)__CPROVER_POINTER_OFFSET(strit) && (g_nm == 0 ==> (size_t)__CPROVER_POINTER_OFFSET(strit) == 0)',
     ],
     'decreases': 'inlen - (size_t)__CPROVER_POINTER_OFFSET(strit)'},
  ],
  'trusted': ['memcpy: contracts/libc_contracts.h (ISO C 7.24.2.1)'],
- 'witness': {'unwind': 9},
+ 'fallback': 'ghost-free',
+ 'witness': {'unwind': 12},
 } @*/
 #include "c19_harness.h"
 #include "c19_libc.h"
 #include "libc_contracts.h"
-/* [p, p + len) lies inside [0, n), without wrap-around */
-#define C19_INSIDE(p, len, n) ((p) <= (n) && (len) <= (n) - (p))
-#if GROW
-#define C19_FIT(out, in) ((out) <= 2 * (in))
-#define C19_WORST(inlen) (2 * (inlen))
-#else
-#define C19_FIT(out, in) ((out) <= (in))
-#define C19_WORST(inlen) (inlen)
-#endif
-size_t g_m, g_j, g_w;                 /* in: ghost match index, needle index, input position */
-size_t g_nm;                          /* out: number of matches */
-size_t g_prev, g_pm, g_prev1;         /* out: search start and position of match g_m; search start of match g_m + 1 */
-size_t g_wd, g_wd_last;               /* out: differing index at position g_w (in front of match g_m / behind the last match) */
-size_t g_last, g_outlen;              /* out: search start of the final (failing) search; output length */
+typedef unsigned __int128 c19_u128;
+#define C19_MIN128(a, b) ((a) < (b) ? (a) : (b))
+size_t g_nm;          /* out: number of matches */
+size_t g_last;        /* out: search start of the final (failing) search */
+size_t g_outlen;      /* out: offset at which the terminator is stored */
+int g_done;           /* out: the tail copy was reached */
 const char *g_in0;
 char *g_buf0;
 #include "igris/string/replace_substrings.c"
@@ -58,36 +52,56 @@ void harness(void)
     WIT(size_t, inlen);
     WIT(size_t, sublen);
     WIT(size_t, replen);
-    WIT(size_t, m);
-    WIT(size_t, j);
-    WIT(size_t, w);
     WIT_ARR(char, ci, 6);
     WIT_ARR(char, cs, 6);
     WIT_ARR(char, cr, 6);
-    __CPROVER_assume(inlen <= VC_MAXOBJ / 4 && maxsize <= VC_MAXOBJ);
-#if GROW
-    __CPROVER_assume(sublen == 1 && replen == 2);
-#else
-    __CPROVER_assume(sublen <= VC_MAXOBJ && replen <= sublen);
-#endif
-    /* known finding: maxsize is ignored by the main loop and by the tail copy.  The outputs that fit cannot be described without counting the
-       matches, so the carve-out keeps the inputs whose WORST-CASE output fits: maxsize > inlen * max(1, replen / sublen) */
-    __CPROVER_assume(KF_C19_replace_substrings_maxsize == 2 ? !(maxsize >= C19_WORST(inlen) + 1) : (maxsize >= C19_WORST(inlen) + 1));
+    __CPROVER_assume(inlen <= VC_MAXOBJ / 4 && maxsize <= VC_MAXOBJ && sublen <= VC_MAXOBJ && replen <= VC_MAXOBJ);
+    /* finding C19_replace_substrings_maxsize (fixed): no restriction on maxsize any more; while the entry is open the carve-out of the
+       before-fix unit applies (this file is the after-fix version: KF is 0) */
     C19_BLOCK(input, inlen, ci);
     C19_BLOCK(sub, sublen, cs);
     C19_BLOCK(rep, replen, cr);
     char *buffer = NEW_OBJ(maxsize);
-    g_m = m; g_j = j; g_w = w;
-    g_nm = 0; g_prev = g_pm = g_prev1 = g_wd = g_wd_last = g_last = g_outlen = 0;
-    g_mm_j = j;
-    g_mm_watch = (w <= inlen) ? input + w : NULL;
+    g_nm = 0; g_last = g_outlen = 0; g_done = 0;
+    g_mm_j = 0; g_mm_watch = NULL;
     g_memcpy_k = (size_t)-1; g_memcpy_v = 0;
 
     replace_substrings(buffer, maxsize, input, inlen, sub, sublen, rep, replen);
 
-    __CPROVER_assert(g_outlen < maxsize && buffer[g_outlen] == 0, "replace_substrings: the terminator is stored at the output length, inside the buffer");
-    __CPROVER_assert(g_last <= inlen && g_nm <= inlen, "replace_substrings: the scan ends inside the input");
-    if (sublen == 0)
-        __CPROVER_assert(g_nm == 0 && g_outlen == inlen, "replace_substrings: empty pattern: no match, plain copy");
+#if !VC_FALLBACK
+    if (maxsize == 0) {
+        __CPROVER_assert(!g_done && g_nm == 0, "replace_substrings: maxsize == 0: returns at once (nothing can be written: the buffer object is empty)");
+    } else {
+        __CPROVER_assert(g_done && g_last <= inlen && g_nm <= inlen, "replace_substrings: the scan ends inside the input");
+        __CPROVER_assert(g_outlen <= maxsize - 1 && buffer[g_outlen] == 0, "replace_substrings: the terminator is stored inside the buffer");
+        if (sublen == 0)
+            __CPROVER_assert(g_nm == 0 && g_outlen == (inlen < maxsize - 1 ? inlen : maxsize - 1), "replace_substrings: empty pattern: no match, plain (truncated) copy");
+    }
+#endif
+#ifdef WITNESS_MODE
+    /* direct reference over the (small, concrete) operands: left-to-right non-overlapping substitution, truncated to maxsize - 1 bytes.
+       It does not depend on the injected ghost statements, so it also decides the bounded fallback run.  The byte comparison runs natively
+       only: under cbmc the memcpy calls are contracts that havoc the buffer */
+    {
+        char ref[64];
+        size_t rl = 0, pos = 0;
+        while (pos < inlen) {
+            int hit = sublen >= 1 && sublen <= inlen - pos;
+            for (size_t d = 0; hit && d < sublen; d++) hit = input[pos + d] == sub[d];
+            if (hit) { for (size_t d = 0; d < replen && rl < 64; d++) ref[rl++] = rep[d]; pos += sublen; }
+            else if (rl < 64) ref[rl++] = input[pos++];
+            else pos++;
+        }
+        if (maxsize >= 1) {
+            size_t el = rl < maxsize - 1 ? rl : maxsize - 1;
+            __CPROVER_assert(buffer[el] == 0, "replace_substrings: terminator at min(reference length, maxsize - 1) (direct reference)");
+#ifdef REPLAY
+            int same = 1;
+            for (size_t d = 0; d < el; d++) same = same && buffer[d] == ref[d];
+            __CPROVER_assert(same, "replace_substrings: the output is the (truncated) reference substitution (direct reference, native)");
+#endif
+        }
+    }
+#endif
     CANARY("replace_substrings end reachable");
 }
